@@ -16,8 +16,15 @@ def load(pid):
     try:
         doc = json.load(open(PATH))
     except FileNotFoundError:
-        return {}
-    return {e["id"]: e for e in doc.get("findings", []) if e["property"] == pid}
+        doc = {}
+    out = {e["id"]: e for e in doc.get("findings", []) if e["property"] == pid}
+    # staging area used while a check is being developed; merged into known_findings.json
+    import glob
+    for f in sorted(glob.glob(os.path.join(os.path.dirname(PATH), "known_findings.d", "*.json"))):
+        for e in json.load(open(f)).get("findings", []):
+            if e["property"] == pid:
+                out[e["id"]] = e
+    return out
 
 
 def match(known, v):
